@@ -170,7 +170,7 @@ impl Property for C12 {
 
     fn assumptions(&self) -> Vec<String> {
         vec![
-            "the per-sample loss is the library's objective::Function::loss on the library's predict (C12 decides the aggregation, ordering and accuracy rule, not the objective formulas); arg-max is the library's public Tensor::argmax applied to target and prediction (so tie-breaking is whatever argmax does, consistently)".into(),
+            "the per-sample loss is the library's objective::Function::loss on the library's predict (C12 decides the aggregation, ordering and accuracy rule, not the objective formulas); arg-max is the library's public Tensor::argmax applied to target and prediction (so tie-breaking is whatever argmax does, consistently), and the index it returns must hold a maximal value".into(),
             "the mean is compared bitwise first and otherwise within 1e-4 relative (a correct re-association is not an alarm)".into(),
             "validate with zero samples is outside the property (mean undefined) and not generated".into(),
             "E1 scheduling limits as for C05".into(),
@@ -417,6 +417,20 @@ impl Property for C12 {
                 let (l, _) = objective.loss(&tensor::Tensor::single(p.clone()), &tensor::Tensor::single(y.clone()));
                 sum32 += l;
                 sum64 += l as f64;
+                if softmax && !p.iter().chain(y.iter()).any(|v| v.is_nan()) {
+                    // whatever the tie rule of the library's arg-max is, the index it returns
+                    // must hold a maximal value
+                    for v in [p, y] {
+                        let i = tensor::Tensor::single(v.to_vec()).argmax();
+                        if i >= v.len() || v.iter().any(|x| *x > v[i]) {
+                            return Outcome::Violation(Violation {
+                                class: "argmax_not_a_maximum".into(),
+                                detail: format!("Tensor::argmax returns index {} for {:?}, which does not hold the largest value", i, v),
+                                signature: sig,
+                            });
+                        }
+                    }
+                }
                 let (lo, hi) = sample_accuracy(softmax, p, y, case.tol);
                 acc_lo += lo;
                 acc_hi += hi;
